@@ -2,6 +2,10 @@ import BasicModel.Lemmas.Link
 import BasicModel.Lemmas.Control
 import BasicModel.Lemmas.Codegen
 import BasicModel.Model.Program
+import BasicModel.Lemmas.DataOrder
+import BasicModel.Lemmas.DataLits
+import BasicModel.Lemmas.WhileMarks
+import BasicModel.Lemmas.ReadRun
 /-
   C09 — READ consumes DATA in source order; RESTORE and RUN reposition the cursor.
 
@@ -345,6 +349,320 @@ example : (Codegen.transformToData { ops := #[.push "A".toList] } (2, 3)).2 = .e
 example : (({ ops := #[.end], data := #[.int 1, .int 2] } : Link).pushSymbol 30).symbols.lookup 30 = some (1, 2) := by decide
 example : (appendMany {} [{ data := #[.int 1] }, { ops := #[.end] }, { data := #[.int 2, .int 3] }]).1.data
     = #[.int 1, .int 2, .int 3] := by decide
+
+/-! ## READ / DATA / RESTORE end to end (program level)
+
+  The mechanisms above, composed.  The lemma files are `Lemmas/GenInv.lean` (a Hoare calculus for the
+  generator functions, parametrised by the invariant), `Lemmas/DataOrder.lean` (who adds to the data of a
+  fragment: DATA and the branches of IF, nobody else), `Lemmas/WhileMarks.lean` (WHILE/WEND marks sit
+  on their branches, so `linkWhiles` never displaces the pending reference of a `restore`) and
+  `Lemmas/ReadRun.lean` (the run of a READ list).  The theorems that need the compile-state lemmas of
+  the second lemma chain (`Lemmas/Layout.lean`, `Lemmas/Inv.lean`) — the symbol of line `n`,
+  `RESTORE n` after linking, RUN, the frame lemma and the headline — are in `Thm/C09Program.lean`. -/
+
+open DataOrder Lemmas.ReadRun Lemmas.ExprCompile Lemmas.FnCall Spec Codegen
+
+/-! ### 1. the data segment of a compiled program -/
+
+/-- **`dataOf`** (`DataOrder.dataOf`): the constants of every DATA statement of the listing — also of
+    those inside the branches of IF — in line order and left to right within a line; a constant is a
+    literal, or a numeric literal under one unary minus (negated by `Ops.negate`, as
+    `transformToData` does); a line that does not parse has none.
+
+    **The data segment of a compiled program is `dataOf` of its listing**, for every listing of
+    numbered lines each of which, compiled in its turn, either does not parse or compiles without a
+    report (`ListingClean`).  No hypothesis on the DATA items: `codegen` reports every item that is
+    not a constant (`codegen_clean_lits`). -/
+theorem data_segment_in_source_order (lines : List Line) (hnum : DataOrder.Numbered lines)
+    (hok : ListingClean {} lines) : (Program.compile lines).link.data.toList = dataOf lines :=
+  compile_data_of_listingClean lines hnum hok
+
+/-- … in particular **for every listing that compiles without errors** (`indirectErrors = []`: what
+    RUN requires) -/
+theorem data_segment_of_clean_program (lines : List Line) (hnum : DataOrder.Numbered lines)
+    (h : (Program.compile lines).indirectErrors = []) :
+    (Program.compile lines).link.data.toList = dataOf lines :=
+  compile_data_of_clean lines hnum h
+
+/-- such a listing parses line by line, and every line compiles without a report -/
+theorem clean_program_listingClean (lines : List Line) (hnum : DataOrder.Numbered lines)
+    (h : (Program.compile lines).indirectErrors = []) :
+    ListingClean {} lines ∧ (∀ l ∈ lines, ∃ ast, Parse.parse l.number l.tokens = .ok ast) :=
+  listingClean_of_compile_clean lines hnum h
+
+/-- a statement list that compiles without a report has constants as DATA items (syntactically:
+    `stmtsLit`), also inside IF branches: anything else is SYNTAX ERROR "EXPECTED LITERAL"
+    (`transformToData_cases`) or the error of the negation -/
+theorem clean_compile_has_constant_data (link : Link) (ast : List Stmt) (h : (Codegen.codegen link ast).2 = []) :
+    stmtsLit ast = true :=
+  codegen_clean_lits link ast h
+
+/-- the error case: **a line that does not parse contributes nothing** — neither data nor code — but
+    its error (its line symbol is still recorded) -/
+theorem unparsable_line_contributes_nothing (p : Program) (line : Line) (n : Nat) (hn : line.number = some n)
+    (e : Error) (hp : Parse.parse line.number line.tokens = .error e) :
+    (p.codegenLine line).link.data = p.link.data ∧ (p.codegenLine line).link.ops = p.link.ops ∧
+    (p.codegenLine line).errors = p.errors ++ [e] ∧ lineData line = [] :=
+  ⟨(codegenLine_parse_error p line n hn e hp).1, (codegenLine_parse_error p line n hn e hp).2.1,
+   (codegenLine_parse_error p line n hn e hp).2.2, by unfold lineData; rw [hp]⟩
+
+/-- one line: the data segment grows by the constants of its statements, in statement order -/
+theorem line_appends_its_constants (p : Program) (line : Line) (n : Nat) (hn : line.number = some n)
+    (hok : LineClean p line) : (p.codegenLine line).link.data.toList = p.link.data.toList ++ lineData line :=
+  codegenLine_data p line n hn fun n' ast hn' hp => ⟨codegen_clean_lits _ ast (hok n' ast hn' hp), hok n' ast hn' hp⟩
+
+/-- one statement list: DATA contributes its constants, IF those of its THEN branch followed by those
+    of its ELSE branch, every other statement nothing -/
+theorem statements_append_their_constants (link : Link) (ast : List Stmt)
+    (h : (Codegen.codegen link ast).2 = []) :
+    (Codegen.codegen link ast).1.data.toList = link.data.toList ++ stmtsData ast :=
+  codegen_data_clean link ast h
+
+/-- **position independence**: `dataOf` depends only on the subsequence of lines that carry
+    constants, and of those only on their texts — not on their line numbers, not on the code lines
+    around them.  Moving a DATA line among the code lines (keeping the relative order of the DATA
+    lines) leaves `dataOf`, hence the compiled data segment, unchanged. -/
+theorem data_position_independent (ls ls' : List Line)
+    (h : (ls.filter carriesData).map (·.tokens) = (ls'.filter carriesData).map (·.tokens)) :
+    dataOf ls = dataOf ls' :=
+  dataOf_position_independent ls ls' h
+
+theorem data_segment_position_independent (ls ls' : List Line) (hn : DataOrder.Numbered ls)
+    (hn' : DataOrder.Numbered ls') (hok : ListingClean {} ls) (hok' : ListingClean {} ls')
+    (h : (ls.filter carriesData).map (·.tokens) = (ls'.filter carriesData).map (·.tokens)) :
+    (Program.compile ls).link.data = (Program.compile ls').link.data :=
+  compile_data_position_independent ls ls' hn hn' (listingOk_of_listingClean _ _ hok)
+    (listingOk_of_listingClean _ _ hok') h
+
+/-! ### 2. RESTORE: the fragment, and the linker -/
+
+/-- `RESTORE` / `RESTORE n` compiles to the single instruction `restore 0`, reporting nothing, with
+    no data; with a line-number operand the reference to the symbol of line `n` is pending at that
+    instruction (`restoreFrag`), without one nothing is pending and the operand stays 0 -/
+theorem restore_fragment (c c2 : Col) (bits : UInt32) (s : VState) :
+    acceptStmt (.restore c (.single c2 bits)) s =
+      { s with g := { s.g with stmt := s.g.stmt.push (c, restoreFrag c2 (restoreTarget bits)) } } :=
+  acceptStmt_restore c c2 bits s
+
+/-- **the linker patches `RESTORE n` with the data address of line `n`**: a `restore` waiting for a
+    defined symbol ends as `restore d`, `d` the data address the symbol records
+    (`pushSymbol_records_data_addr`: the number of constants compiled before the line) — whatever
+    WHILE/WEND pairing adds to the pending references, because marks sit on their own branches
+    (`WhilesOps`, an invariant of every fragment and of the compile state) -/
+theorem restore_resolved_by_link (l : Link) (hk : KeysDistinct l.unlinked) (hw : WhilesOps l) (a y : Nat) (c : Col)
+    (sym : Symbol) (o d : Nat) (hp : PendingAt l a (.restore y) (some (c, sym)))
+    (hsym : l.symbols.lookup sym = some (o, d)) : l.link.1.ops[a]? = some (.restore d) :=
+  link_restore_resolves l hk hw a y c sym o d hp hsym
+
+/-- the compile state of any listing of numbered lines has its marks on their branches and distinct
+    reference addresses -/
+theorem compile_state_marks (lines : List Line) (hnum : DataOrder.Numbered lines) :
+    WhilesOps (({} : Program).codegenLines lines).link ∧
+    KeysDistinct (({} : Program).codegenLines lines).link.unlinked :=
+  codegenLines_whilesOps lines {} hnum WhilesOps.empty List.Pairwise.nil
+
+/-! ### 3. the READ list -/
+
+/-- **code shape**: `READ v₁,…,vₖ` (scalar targets that are not zero-argument built-ins) compiles to
+    one fragment, nothing reported, whose code is `read; pop v₁; …; read; pop vₖ`: one `read` and one
+    store per target, left to right — READ is `read` followed by the code of an assignment -/
+theorem read_code_shape (c : Col) (pis : List (Col × TIdent)) (hz : ∀ p ∈ pis, isZeroArg p.2.name = false)
+    (s : VState) (hlen : 2 * pis.length ≤ Gen.stackMaxLen) :
+    acceptStmt (.read c (pis.map fun p => Variable.unary p.1 p.2)) s =
+      { s with g := { s.g with stmt := s.g.stmt.push (c, plain (readCode (pis.map (·.2.name))).toArray) } } :=
+  read_codegen_shape c pis hz s hlen
+
+/-- **the run**: from any state (trace off, room for one value on the stack) with the cursor at `p`,
+    the code of a READ list runs as `readSpec` says; the stack ends as it began (`afterRead` changes
+    `pc`, the variables and the cursor only) -/
+theorem read_list_run (env : Env) (hie : Bool) (names : List Str) (s : Runtime)
+    (hcode : CodeAt s.program.link.ops s.pc (readCode names)) (htr : s.tron = false)
+    (hroom : s.stack.size + 1 ≤ Gen.stackMaxLen) :
+    runOps env hie (readCode names) s =
+      readResult s (readSpec s.program.link.data names s.vars s.program.link.dataPos) :=
+  read_run env hie names s hcode htr hroom
+
+/-- enough constants, every store accepted: target `i` receives `data[p+i]` converted by `Var.store`
+    (as an assignment would), one after the other, left to right; the cursor ends at `p + k` -/
+theorem read_list_ok (env : Env) (hie : Bool) (names : List Str) (s : Runtime) (vars' : Var)
+    (hcode : CodeAt s.program.link.ops s.pc (readCode names)) (htr : s.tron = false)
+    (hroom : s.stack.size + 1 ≤ Gen.stackMaxLen)
+    (hp : s.program.link.dataPos + names.length ≤ s.program.link.data.size)
+    (hst : bindParams s.vars names ((s.program.link.data.toList.drop s.program.link.dataPos).take names.length) =
+      .ok vars') :
+    runOps env hie (readCode names) s =
+      (.ok .continue, { s with pc := s.pc + 2 * names.length, vars := vars', program := { s.program with link := { s.program.link with dataPos := s.program.link.dataPos + names.length } } }) := by
+  rw [read_run env hie names s hcode htr hroom, readSpec_ok _ names s.vars vars' _ hp hst]
+  rfl
+
+/-- **a conversion error** (TYPE MISMATCH for a string constant read into a numeric variable, or the
+    reverse; OVERFLOW): the list stops at the first target whose store is refused, with that store's
+    error; the earlier targets are assigned; and the cursor is `p + i + 1` — **the offending constant
+    has been consumed** (the `read` happens before the store) -/
+theorem read_list_conversion_error (env : Env) (hie : Bool) (pre : List Str) (n : Str) (post : List Str)
+    (s : Runtime) (vars1 : Var) (v : Val) (e : Error)
+    (hcode : CodeAt s.program.link.ops s.pc (readCode (pre ++ n :: post))) (htr : s.tron = false)
+    (hroom : s.stack.size + 1 ≤ Gen.stackMaxLen)
+    (hp : s.program.link.dataPos + pre.length ≤ s.program.link.data.size)
+    (hpre : bindParams s.vars pre ((s.program.link.data.toList.drop s.program.link.dataPos).take pre.length) =
+      .ok vars1)
+    (hv : s.program.link.data[s.program.link.dataPos + pre.length]? = some v) (hs : vars1.store n v = .error e) :
+    runOps env hie (readCode (pre ++ n :: post)) s =
+      (.error e, { s with pc := s.pc + (2 * pre.length + 2), vars := vars1, program := { s.program with link := { s.program.link with dataPos := s.program.link.dataPos + pre.length + 1 } } }) := by
+  rw [read_run env hie _ s hcode htr hroom, readSpec_store_error _ pre n post s.vars vars1 _ v e hp hpre hv hs]
+  rfl
+
+/-- **OUT OF DATA**: with fewer constants left than targets, the first `|data| - p` targets are
+    assigned, the error is OUT OF DATA (code 4), and the cursor stays at the end of the data -/
+theorem read_list_out_of_data (env : Env) (hie : Bool) (pre : List Str) (n : Str) (post : List Str)
+    (s : Runtime) (vars1 : Var)
+    (hcode : CodeAt s.program.link.ops s.pc (readCode (pre ++ n :: post))) (htr : s.tron = false)
+    (hroom : s.stack.size + 1 ≤ Gen.stackMaxLen)
+    (hp : s.program.link.dataPos + pre.length = s.program.link.data.size)
+    (hpre : bindParams s.vars pre ((s.program.link.data.toList.drop s.program.link.dataPos).take pre.length) =
+      .ok vars1) :
+    runOps env hie (readCode (pre ++ n :: post)) s =
+      (.error (Error.mk' Code.outOfData), { s with pc := s.pc + (2 * pre.length + 1), vars := vars1, program := { s.program with link := { s.program.link with dataPos := s.program.link.data.size } } }) ∧
+    (Error.mk' Code.outOfData).code = 4 := by
+  rw [read_run env hie _ s hcode htr hroom, readSpec_out_of_data _ pre n post s.vars vars1 _ hp hpre]
+  exact ⟨rfl, rfl⟩
+
+/-! ### 6. non-vacuity
+
+  The kernel does not evaluate the parser, so the parses of the example lines are proved by
+  unfolding it (`simp`), and the listing-level hypotheses are then checked on the parses
+  (`listingOk_of_check`, `dataOf_of_parses`).  All constants are Integers or strings: `Float32` is
+  opaque to the kernel. -/
+
+theorem i16_7 : Fmt.parseI16 (Parse.numText ['7']) = some 7 := by decide +kernel
+theorem i16_8 : Fmt.parseI16 (Parse.numText ['8']) = some 8 := by decide +kernel
+
+/-- `READ A%,B$` -/
+theorem parse_exRead (n : Option Nat) :
+    Parse.parse n [.word .read, .whitespace 1, .ident (.integer ['A', '%']), .comma, .ident (.string ['B', '$'])] =
+    .ok [.read (0, 4) [.unary (5, 7) (.integer ['A', '%']), .unary (8, 10) (.string ['B', '$'])]] := by
+  simp [Parse.parse, Parse.parseTokens, Parse.fuelFor, Parse.statements, Parse.statement, Parse.peek,
+    Parse.next, Parse.nextLoop, Parse.col, Parse.isRem, StateT.run, bind, StateT.bind, Except.bind, get,
+    getThe, MonadStateOf.get, StateT.get, pure, StateT.pure, Except.pure, set, StateT.set, modify,
+    modifyGet, MonadStateOf.modifyGet, StateT.modifyGet, Except.map, Token.text, Word.text,
+    Parse.maybe, Parse.varList, Parse.expectVar, Parse.isUserFunction, TIdent.name]
+
+/-- `DATA 7,-8` -/
+theorem parse_exData1 (n : Option Nat) :
+    Parse.parse n [.word .data, .whitespace 1, .literal (.integer ['7']), .comma, .operator .minus,
+      .literal (.integer ['8'])] =
+    .ok [.data (9, 9) [.integer (5, 6) 7, .neg (7, 8) (.integer (8, 9) 8)]] := by
+  simp [Parse.parse, Parse.parseTokens, Parse.fuelFor, Parse.statements, Parse.statement, Parse.peek,
+    Parse.next, Parse.nextLoop, Parse.col, Parse.isRem, StateT.run, bind, StateT.bind, Except.bind, get,
+    getThe, MonadStateOf.get, StateT.get, pure, StateT.pure, Except.pure, set, StateT.set, modify,
+    modifyGet, MonadStateOf.modifyGet, StateT.modifyGet, Except.map, Token.text, Word.text, Literal.text,
+    Parse.descend, Parse.binLoop, Parse.maybe, Parse.literal, Parse.exprList, i16_7, i16_8, Operator.text]
+
+/-- `END` -/
+theorem parse_exEnd (n : Option Nat) : Parse.parse n [.word .end] = .ok [.end (0, 3)] := by
+  simp [Parse.parse, Parse.parseTokens, Parse.fuelFor, Parse.statements, Parse.statement, Parse.peek,
+    Parse.next, Parse.nextLoop, Parse.col, Parse.isRem, StateT.run, bind, StateT.bind, Except.bind, get,
+    getThe, MonadStateOf.get, StateT.get, pure, StateT.pure, Except.pure, set, StateT.set, modify,
+    modifyGet, MonadStateOf.modifyGet, StateT.modifyGet, Except.map, Token.text, Word.text]
+
+/-- `DATA "X"` -/
+theorem parse_exData2 (n : Option Nat) :
+    Parse.parse n [.word .data, .whitespace 1, .literal (.string ['X'])] = .ok [.data (8, 8) [.string (5, 8) ['X']]] := by
+  simp [Parse.parse, Parse.parseTokens, Parse.fuelFor, Parse.statements, Parse.statement, Parse.peek,
+    Parse.next, Parse.nextLoop, Parse.col, Parse.isRem, StateT.run, bind, StateT.bind, Except.bind, get,
+    getThe, MonadStateOf.get, StateT.get, pure, StateT.pure, Except.pure, set, StateT.set, modify,
+    modifyGet, MonadStateOf.modifyGet, StateT.modifyGet, Except.map, Token.text, Word.text, Literal.text,
+    Parse.descend, Parse.binLoop, Parse.maybe, Parse.literal, Parse.exprList, Operator.text]
+
+/-- `10 READ A%,B$` / `20 DATA 7,-8` / `30 END` / `40 DATA "X"` -/
+def exL1 : Line := ⟨some 10, [.word .read, .whitespace 1, .ident (.integer ['A', '%']), .comma, .ident (.string ['B', '$'])]⟩
+def exL2 : Line := ⟨some 20, [.word .data, .whitespace 1, .literal (.integer ['7']), .comma, .operator .minus,
+  .literal (.integer ['8'])]⟩
+def exL3 : Line := ⟨some 30, [.word .end]⟩
+def exL4 : Line := ⟨some 40, [.word .data, .whitespace 1, .literal (.string ['X'])]⟩
+
+def exAsts : List (List Stmt) :=
+  [[.read (0, 4) [.unary (5, 7) (.integer ['A', '%']), .unary (8, 10) (.string ['B', '$'])]],
+   [.data (9, 9) [.integer (5, 6) 7, .neg (7, 8) (.integer (8, 9) 8)]],
+   [.end (0, 3)],
+   [.data (8, 8) [.string (5, 8) ['X']]]]
+
+theorem exParses : Parses [exL1, exL2, exL3, exL4] exAsts :=
+  .cons (parse_exRead _) (.cons (parse_exData1 _) (.cons (parse_exEnd _) (.cons (parse_exData2 _) .nil)))
+
+/-- the hypotheses of `data_segment_in_source_order` hold for the example -/
+theorem exOk : ListingClean {} [exL1, exL2, exL3, exL4] :=
+  listingClean_of_listingOk _ _ (listingOk_of_check _ _ _ exParses (by decide +kernel))
+
+/-- its data segment: `7, -8, "X"` — the DATA lines sit behind and between the code -/
+example : (Program.compile [exL1, exL2, exL3, exL4]).link.data.toList = [.int 7, .int (-8), .str ['X']] := by
+  rw [data_segment_in_source_order _ (numbered_of_check _ (by decide)) exOk, dataOf_of_parses _ _ exParses]
+  decide +kernel
+
+/-- the DATA lines moved in front of the code and renumbered: the same data sequence -/
+theorem exMovedParses : Parses [{ exL2 with number := some 1 }, { exL4 with number := some 2 }, exL1, exL3]
+    [exAsts[1], exAsts[3], exAsts[0], exAsts[2]] :=
+  .cons (parse_exData1 _) (.cons (parse_exData2 _) (.cons (parse_exRead _) (.cons (parse_exEnd _) .nil)))
+
+example : dataOf [{ exL2 with number := some 1 }, { exL4 with number := some 2 }, exL1, exL3] =
+    dataOf [exL1, exL2, exL3, exL4] := by
+  rw [dataOf_of_parses _ _ exMovedParses, dataOf_of_parses _ _ exParses]
+  decide +kernel
+
+/-- DATA inside IF branches counts, THEN branch first; PRINT contributes nothing -/
+example : stmtsData [.data (0, 0) [.integer (0, 0) 1], .print (0, 0) [.integer (0, 0) 5],
+    .«if» (0, 0) (.integer (0, 0) 1) [.data (0, 0) [.string (0, 0) ['A']]] [.data (0, 0) [.integer (0, 0) 2]]] =
+    [.int 1, .str ['A'], .int 2] := by decide
+
+example : (Codegen.codegen {} [.data (0, 0) [.integer (0, 0) 1], .print (0, 0) [.integer (0, 0) 5],
+    .«if» (0, 0) (.integer (0, 0) 1) [.data (0, 0) [.string (0, 0) ['A']]] [.data (0, 0) [.integer (0, 0) 2]]]).1.data =
+    #[.int 1, .str ['A'], .int 2] := by decide +kernel
+
+/-- the RESTORE fragments -/
+example : restoreFrag (8, 10) (some 40) = { ops := #[.restore 0], unlinked := [(0, ((8, 10), 40))] } := rfl
+example : restoreFrag (7, 7) none = { ops := #[.restore 0] } := rfl
+
+/-- the linker on `restore 0` waiting for line 40, whose symbol records 2 constants before it -/
+def exRestoreLink : Link :=
+  { ops := #[.restore 0, .end], symbols := [(10, (0, 0)), (40, (1, 2))], unlinked := [(0, ((8, 10), 40))] }
+
+example : exRestoreLink.link.1.ops = #[.restore 2, .end] := by decide +kernel
+
+/-- the READ list `READ A%,B$` on the data `7, "X", 9` from cursor 0 … -/
+def exRun : Runtime :=
+  { program := { link := { ops := #[.read, .pop ['A', '%'], .read, .pop ['B', '$'], .end],
+                           data := #[.int 7, .str ['X'], .int 9] } } }
+
+theorem exRun_code : CodeAt exRun.program.link.ops exRun.pc (readCode [['A', '%'], ['B', '$']]) := by decide
+
+/-- … assigns both, cursor 2, stack empty, `pc` past the code -/
+example (env : Env) (hie : Bool) :
+    (runOps env hie (readCode [['A', '%'], ['B', '$']]) exRun).2.program.link.dataPos = 2 ∧
+    (runOps env hie (readCode [['A', '%'], ['B', '$']]) exRun).2.vars.fetch ['A', '%'] = .ok (.int 7) ∧
+    (runOps env hie (readCode [['A', '%'], ['B', '$']]) exRun).2.vars.fetch ['B', '$'] = .ok (.str ['X']) ∧
+    (runOps env hie (readCode [['A', '%'], ['B', '$']]) exRun).2.stack = #[] ∧
+    (runOps env hie (readCode [['A', '%'], ['B', '$']]) exRun).2.pc = 4 := by
+  rw [read_list_run env hie _ exRun exRun_code rfl (by decide)]
+  decide +kernel
+
+/-- `READ B$,A%` on the same data: the Integer 7 cannot be stored into `B$` — TYPE MISMATCH (13),
+    nothing assigned, and the cursor is 1: the constant is consumed -/
+example : (readSpec exRun.program.link.data [['B', '$'], ['A', '%']] Var.new 0).1.map (·.code) = some 13 ∧
+    (readSpec exRun.program.link.data [['B', '$'], ['A', '%']] Var.new 0).2.2 = (1, 2) := by decide +kernel
+
+/-- four targets, three constants: OUT OF DATA (4) after three assignments, cursor 3 -/
+example : (readSpec exRun.program.link.data [['A', '%'], ['B', '$'], ['A', '%'], ['A', '%']] Var.new 0).1.map (·.code) =
+      some 4 ∧
+    (readSpec exRun.program.link.data [['A', '%'], ['B', '$'], ['A', '%'], ['A', '%']] Var.new 0).2.2 = (3, 7) ∧
+    (readSpec exRun.program.link.data [['A', '%'], ['B', '$'], ['A', '%'], ['A', '%']] Var.new 0).2.1.fetch ['A', '%'] =
+      .ok (.int 9) := by decide +kernel
+
+/-- the code shape of `READ A%,B$` (the AST the parser returns for it) -/
+example : acceptStmt (.read (0, 4) ([((5, 7), TIdent.integer ['A', '%']), ((8, 10), TIdent.string ['B', '$'])].map
+      fun p => Variable.unary p.1 p.2)) {} =
+    { g := { stmt := #[((0, 4), plain #[.read, .pop ['A', '%'], .read, .pop ['B', '$']])] }, errors := [] } := by
+  rw [read_code_shape (0, 4) _ (by decide) {} (by decide)]
+  rfl
 
 end Thm.C09
 end Basic
